@@ -2,6 +2,7 @@
 import ast
 
 from ..core import astutil as A
+from ..core import match as M
 from ..core.cfg import cfg_of
 from ..core.model import dotted
 
@@ -30,7 +31,9 @@ def run(ctx):
     ctx.require(len(loops) == 2, "unmerge_contents: expected a non-directory pass and a directory pass")
     first, second = loops
     src1 = A.unparse(first.iter)
-    ok1 = f"{cs}.iterdirs(invert=True)" in src1 and not any(isinstance(n, (ast.GeneratorExp, ast.ListComp)) for n in ast.walk(first.iter)) and "filter" not in src1
+    # identifiers (called functions, attributes, names) that spell a filter; string constants are not behaviour here
+    idents = {n.id for n in ast.walk(first.iter) if isinstance(n, ast.Name)} | {n.attr for n in ast.walk(first.iter) if isinstance(n, ast.Attribute)}
+    ok1 = M.has(first.iter, f"{cs}.iterdirs(invert=True)") and not any(isinstance(n, (ast.GeneratorExp, ast.ListComp, ast.SetComp, ast.DictComp)) for n in ast.walk(first.iter)) and not any("filter" in i for i in idents)
     ctx.check("R1", um, ok1, "nondir-pass-source", "the first pass walks every non-directory entry (iterdirs(invert=True), unfiltered)",
               f"the non-directory pass iterates `{src1}`: entry kinds left out (fifos, device nodes, ...) are never removed and keep their directories non-empty", node=first)
     body_calls = [dotted(c.func) for c in A.calls(first)]
@@ -40,11 +43,12 @@ def run(ctx):
     ctx.check("R1", um, len(ul) == 1 and A.unparse(ul[0].args[0]) == f"{A.unparse(first.target)}.location", "unlink-target", "the unlinked path is the entry's own location")
     # directory pass: sorted reverse, rmdir, tolerant errno
     lst = A.unparse(second.iter)
-    srcs = [A.unparse(v) for t, v, _ in A.assignments(um.node, lst)] if isinstance(second.iter, ast.Name) else [lst]
-    ctx.check("R1", um, any(f"{cs}.iterdirs()" in s for s in srcs), "dir-pass-source", "the second pass walks the directory entries")
+    # the list variable is located by its role (what the second loop iterates), never by its spelling
+    srcs = [v for t, v, _ in A.assignments(um.node, lst)] if isinstance(second.iter, ast.Name) else [second.iter]
+    ctx.check("R1", um, any(M.has(v, f"{cs}.iterdirs()") for v in srcs), "dir-pass-source", "the second pass walks the directory entries")
     sorts = [c for c in A.calls(um.node) if A.call_attr(c) == "sort" and A.unparse(c.func.value) == lst]
     rev = bool(sorts) and any(k.arg == "reverse" and A.try_literal(k.value) is True for k in sorts[0].keywords)
-    ctx.check("R1", um, rev or "reversed(sorted(" in " ".join(srcs), "dirs-deepest-first", "directories are removed deepest first (reverse sorted)", "unmerge_contents does not remove directories in reverse-sorted order: parents are tried before their children and stay behind")
+    ctx.check("R1", um, rev or any(M.has(v, "reversed(sorted(...))") for v in srcs), "dirs-deepest-first", "directories are removed deepest first (reverse sorted)", "unmerge_contents does not remove directories in reverse-sorted order: parents are tried before their children and stay behind")
     rd = [c for d, c in rem if d == "os.rmdir"]
     ctx.check("R1", um, len(rd) == 1 and A.unparse(rd[0].args[0]) == f"{A.unparse(second.target)}.location" and any(p is second for p in A.parents(rd[0])), "rmdir-target", "os.rmdir is applied to each directory entry's own location")
     errnos = {n.attr for n in ast.walk(second) if isinstance(n, ast.Attribute) and isinstance(n.value, ast.Name) and n.value.id == "errno"}
@@ -69,15 +73,19 @@ def run(ctx):
     ctx.check("R2", ME, assigns.get("uninstall") == "'get_remove_cset'", "replace-uninstall-source", "in replace mode the uninstall cset comes from get_remove_cset", f"replace_csets['uninstall'] = {assigns.get('uninstall')}")
     grc = P.func(ENG, "MergeEngine.get_remove_cset")
     r = A.returns(grc.node)
-    ctx.check("R2", grc, len(r) == 1 and A.unparse(r[0].value) == "csets['old_cset'].difference(csets['install'])", "remove-cset-shape",
-              "get_remove_cset is old_cset minus what the new package installs", f"get_remove_cset returns `{A.unparse(r[0].value) if r else None}`")
+    gp = grc.params()
+    ctx.require(len(gp) >= 2, "get_remove_cset: expected (engine, csets) parameters")
+    ctx.check("R2", grc, len(r) == 1 and r[0].value is not None and M.pat(f"{gp[1]}['old_cset'].difference({gp[1]}['install'])").matches(r[0].value) is not None, "remove-cset-shape",
+              "get_remove_cset is old_cset minus what the new package installs", f"get_remove_cset returns `{A.unparse(r[0].value) if r and r[0].value is not None else None}`")
     uc = ME.assigns.get("uninstall_csets")
     lit = {A.try_literal(k): A.unparse(v) for k, v in zip(uc.keys, uc.values)} if isinstance(uc, ast.Dict) else {}
     ctx.check("R2", ME, lit.get("uninstall") == "partial(alias_cset, 'old_cset')" and lit.get("old_cset") == "'get_uninstall_livefs_intersect'", "uninstall-alias", "plain uninstall removes old_cset (the livefs intersection of the recorded contents)", f"uninstall_csets = {lit}")
     # both operands of the difference are resolved the same way: neither intersect passes realpath=True
     helper = P.func(ENG, "MergeEngine._get_livefs_intersect_cset")
-    dflt = helper.node.args.defaults
-    ctx.check("R2", helper, bool(dflt) and A.try_literal(dflt[-1]) is False, "realpath-default", "the livefs intersection keeps recorded paths by default (realpath=False)")
+    pos = helper.node.args.posonlyargs + helper.node.args.args
+    by_name = dict(zip([a.arg for a in pos][len(pos) - len(helper.node.args.defaults):], helper.node.args.defaults))
+    by_name.update({a.arg: d for a, d in zip(helper.node.args.kwonlyargs, helper.node.args.kw_defaults) if d is not None})
+    ctx.check("R2", helper, "realpath" in by_name and A.try_literal(by_name["realpath"]) is False, "realpath-default", "the livefs intersection keeps recorded paths by default (realpath=False)")
     for q in ("MergeEngine.get_uninstall_livefs_intersect", "MergeEngine.get_install_livefs_intersect"):
         f = P.func(ENG, q)
         calls = [c for c in A.calls(f.node) if A.call_attr(c) == "_get_livefs_intersect_cset"]
@@ -103,22 +111,34 @@ def run(ctx):
     ctx.check("R3", prot, isinstance(pp, int) and isinstance(pu, int) and pp < pu, "runs-first", f"protection priority {pp} is lower than unmerge's {pu} (ascending execution)", f"priorities: protection {pp}, unmerge {pu}")
     eh = P.func(ENG, "MergeEngine.execute_hook")
     srt = [c for c in A.calls(eh.node) if dotted(c.func) == "sorted"]
-    ok = bool(srt) and "priority" in A.unparse(srt[0]) and not any(k.arg == "reverse" for k in srt[0].keywords)
+    by_prio = ("operator.attrgetter('priority')", "attrgetter('priority')", "lambda $t: $t.priority")
+    asc = [c for c in srt if not any(k.arg == "reverse" for k in c.keywords)
+           and any(k.arg == "key" and any(M.pat(p).matches(k.value) for p in by_prio) for k in c.keywords)]
+    # the ascending sort is what the trigger loop iterates
+    ok = any(isinstance(n, ast.For) and any(n.iter is c for c in asc) for n in ast.walk(eh.node))
     ctx.check("R3", eh, ok, "ascending-execution", "execute_hook runs triggers in ascending priority order")
     seq = A.try_literal(prot.assigns.get("_preserve_sequence"))
     ctx.check("R3", prot, isinstance(seq, tuple) and BASE_DIRS <= set(seq), "base-dirs", "the preserved list contains the base-system directories", f"missing from _preserve_sequence: {sorted(BASE_DIRS - set(seq or ()))}")
     tr = prot.methods["trigger"]
     calls = [c for c in A.calls(tr.node) if A.call_attr(c) == "difference_update"]
-    ok = len(calls) == 1 and A.unparse(calls[0].func.value) == tr.params()[2] and "pjoin(engine.offset, x)" in A.unparse(calls[0]) and "self._block" in A.unparse(calls[0])
+    tp = tr.params()
+    ctx.require(len(tp) >= 3, "BaseSystemUnmergeProtection.trigger: expected (self, engine, cset) parameters")
+    strip = [f"{tp[2]}.difference_update(pjoin({tp[1]}.offset, $x) for $x in self._block)",
+             f"{tp[2]}.difference_update([pjoin({tp[1]}.offset, $x) for $x in self._block])"]
+    ok = len(calls) == 1 and any(M.pat(p).matches(calls[0]) for p in strip)
     ctx.check("R3", tr, ok, "strips-under-offset", "every preserved directory, joined under the engine offset, is removed from the uninstall cset")
     init = prot.methods["__init__"]
-    ctx.check("R3", init, "lstrip('/')" in A.unparse(init.node) and "self._preserve_sequence" in A.unparse(init.node), "default-sequence", "the default preserved list is used unless overridden")
+    ip = init.params()
+    ctx.require(len(ip) >= 2, "BaseSystemUnmergeProtection.__init__: expected a preserve_sequence parameter")
+    dflt_seq = M.has(init.node, f"if {ip[1]} is None:\n    {ip[1]} = self._preserve_sequence")
+    blocks = [m for m in M.find(init.node, "self._block = $$e") if M.has(m["$e"], f"$x.lstrip('/')") and any(isinstance(n, ast.Name) and n.id == ip[1] for n in ast.walk(m["$e"]))]
+    ctx.check("R3", init, dflt_seq and len(blocks) == 1, "default-sequence", "the default preserved list is used unless overridden")
     ut = unm.methods["trigger"]
     uc2 = [c for c in A.calls(ut.node) if dotted(c.func) == "unmerge_contents"]
     ctx.check("R3", ut, len(uc2) == 1 and A.unparse(uc2[0].args[0]) == ut.params()[2], "unmerge-uses-cset", "the unmerge trigger hands exactly the (stripped) uninstall cset to unmerge_contents")
     dp = P.func_opt(TRG, "default_plugins_triggers") or P.func_opt("pkgcore.merge.engine", "default_plugins_triggers")
-    reg_src = " ".join(A.unparse(f.node) for f in P.module(TRG).funcs.values() if "triggers" in f.name)
-    ctx.check("R3", prot, "BaseSystemUnmergeProtection" in reg_src, "registered", "BaseSystemUnmergeProtection is among the default triggers")
+    reg = [n for f in P.module(TRG).funcs.values() if "triggers" in f.name for n in ast.walk(f.node) if isinstance(n, ast.Name) and n.id == "BaseSystemUnmergeProtection"]
+    ctx.check("R3", prot, bool(reg), "registered", "BaseSystemUnmergeProtection is among the default triggers")
     ctx.floor("R3", 9)
 
 
